@@ -29,6 +29,8 @@ func allTargets() []target {
 		}
 		out = append(out, t)
 	}
+	// cooperating handlers that modify the token they were handed sit in every workload
+	out = append(out, mutatorTargets()...)
 	return out
 }
 
@@ -430,6 +432,11 @@ func runReplay(w *world, j *judge, cs childSpec) error {
 	case "revoke":
 		cs.N = 5
 		return runRevoke(w, j, cs)
+	case "poison", "poison-after":
+		return runPoison(w, j, cs)
+	case "sessclean":
+		cs.N = 2000
+		return runSessClean(w, j, cs)
 	case "expiry":
 		var er expiryReplay
 		if err := json.Unmarshal(cs.Replay, &er); err != nil {
